@@ -462,6 +462,11 @@ class Calls:
 
     def check_requires(self, fi: FuncInfo, env: Dict[str, V], node: Any, fr: Frame) -> None:
         """The repository's own ``@require``s become obligations at the call site."""
+        if any(fi.qualname.startswith(p) for p in getattr(self.unit, "assume_preconditions", ())):
+            if fi.requires:
+                self.note_assumption(f"ASSUMED at its call sites in {getattr(self.unit, 'name', '?')}: @require of "
+                                     f"{fi.qualname} ({getattr(self.unit, 'assume_preconditions_why', '')})")
+            return
         for lam, desc in fi.requires:
             cfr = Frame(fi.module, None, {}, None)
             cfr.in_spec = True
@@ -579,12 +584,14 @@ class Calls:
                 continue
         if contract is not None:
             for nm, ex in contract.ensures:
-                if any(w in ex for w in ("fs_trace(", "final(", "appended(", "appended_count(", "dict_writes(")):
+                if any(w in ex for w in ("fs_trace(", "final(", "appended(", "appended_count(", "dict_writes(",
+                                         "last_call(", "was_called(")):
                     continue  # about the callee's own ghost state: meaningless in the caller's frame
                 try:
                     self.assume_term(self.truthy(self.eval_spec(ex, cfr)))
                 except Unsupported as e:
                     self.note_assumption(f"ensures {nm} of {fi.qualname} not usable at call site: {e}")
+        self.path.cache.setdefault(("calls",), []).append((fi.qualname, result))
         self.engine.note_function(fi, "by-contract")
         self.note_assumption(f"callee {fi.qualname} used by contract"
                              + ("" if contract is not None else " (repository @require/@ensure only)"))
